@@ -38,12 +38,12 @@ func (m *c19Mgr) AuthoriseNewSession([]byte, usermanager.AuthorisationInfo) erro
 }
 
 type c19UScn struct {
-	ID       int   `json:"id"`
-	Up       int64 `json:"up_rate"`   // rx of the server
-	Down     int64 `json:"down_rate"` // tx of the server
-	Sessions int   `json:"sessions"`
-	Size     int   `json:"size"`
-	DurS     int   `json:"dur_s"`
+	ID       int    `json:"id"`
+	Up       int64  `json:"up_rate"`   // rx of the server
+	Down     int64  `json:"down_rate"` // tx of the server
+	Sessions int    `json:"sessions"`
+	Size     int    `json:"size"`
+	DurS     int    `json:"dur_s"`
 	Via      string `json:"via"`
 }
 
